@@ -16,10 +16,12 @@ EXTENDS BitIOOps, FiniteSets, TLC
 CONSTANTS Modes,      \* subset of {"w", "r"}
           MaxLen,     \* longest program
           MaxBits,    \* reader mode: longest bit string
-          Pads        \* reader mode: pad bits used to complete the last byte
+          Pads,       \* reader mode: pad bits used to complete the last byte
+          Bases       \* writer mode: byte position of the file object when the writer is created
+                      \* (the file already holds that many bytes, e.g. an earlier stream or a container header)
 
-VARIABLES mode, f, w, r, out, pre, inp, hist, fin
-vars == <<mode, f, w, r, out, pre, inp, hist, fin>>
+VARIABLES mode, f, w, r, out, pre, inp, hist, fin, base
+vars == <<mode, f, w, r, out, pre, inp, hist, fin, base>>
 
 (* ---- operation alphabet (cfg files may substitute bigger sets) -------------------------- *)
 O(op, n, v, s) == [op |-> op, n |-> n, v |-> v, s |-> s]
@@ -67,9 +69,14 @@ Final(ww, h) == LET ff == ww.buf IN
                 [file |-> ff, intact |-> [i \in 1..Len(h) |-> Intact(ff, h[i])]]
 NoFin == [file |-> <<>>, intact |-> <<>>]
 
+(* A writer created on a file object positioned after `base` existing bytes: positions (tell, seek) are  *)
+(* positions in the FILE, so the writer starts at bit 8 * base of a file that already has content.       *)
+PrefixBits(b) == [i \in 1..(8 * b) |-> <<1, 0, 1, 0, 0, 1, 0, 1>>[((i - 1) % 8) + 1]]
+
 Init == /\ mode \in Modes
         /\ f \in (IF mode = "r" THEN Files ELSE {<<>>})
-        /\ w = W0 /\ r = R0
+        /\ base \in (IF mode = "w" THEN Bases ELSE {0})
+        /\ w = [W0 EXCEPT !.buf = PrefixBits(base), !.pos = 8 * base] /\ r = R0
         /\ out = [err |-> "none"]
         /\ pre = R0 /\ inp = O("init", 0, 0, <<>>) /\ hist = <<>> /\ fin = NoFin
 
@@ -86,7 +93,7 @@ WStep(o) ==
                                       ELSE IF o.op = "sint" THEN SintLen(o.v) ELSE 0,
                               emit |-> IF o.op \in ValueOps /\ ~OutOfRange(o) THEN Emit(o) ELSE <<>>])
      /\ fin' = Final(a.w, hist')
-  /\ pre' = w /\ inp' = o /\ UNCHANGED <<mode, f, r>>
+  /\ pre' = w /\ inp' = o /\ UNCHANGED <<mode, f, r, base>>
 
 RStep(o) ==
   /\ mode = "r" /\ Len(hist) < MaxLen
@@ -96,7 +103,7 @@ RStep(o) ==
      /\ out' = [err |-> a.err, v |-> a.v]
      /\ hist' = Append(hist, [o |-> o, v |-> a.v, err |-> a.err, pos |-> a.r.pos, on |-> a.r.on, rem |-> a.r.rem,
                               pastend |-> o.op = "bit" /\ r.on /\ r.rem <= 0])
-  /\ pre' = r /\ inp' = o /\ UNCHANGED <<mode, f, w, fin>>
+  /\ pre' = r /\ inp' = o /\ UNCHANGED <<mode, f, w, fin, base>>
 
 WK(k) == \E o \in {x \in WOps : x.op = k} : WStep(o)
 RK(k) == \E o \in {x \in ROps : x.op = k} : RStep(o)
@@ -132,7 +139,7 @@ Next == \/ WriteBit \/ WriteNBits \/ WriteUintLit \/ WriteUint \/ WriteSint \/ W
 
 Spec == Init /\ [][Next]_vars
 
-View == <<mode, f, pre, inp, w, r, out>>
+View == <<mode, f, base, pre, inp, w, r, out>>
 
 (* ---- C20 as properties of the design ------------------------------------------------------ *)
 (* P1: every intact step reads back as written, ending at the writer's position and block count *)
@@ -182,6 +189,11 @@ WriterBlockLaw ==
 ReaderBlockLaw ==
   [][(mode = "r" /\ inp'.op = "bit" /\ r.on /\ r.rem <= 0) =>
         (out'.v = 1 /\ out'.err = "none" /\ r'.pos = r.pos)]_vars
+
+(* what was in the file before the writer was created survives any program without seeks *)
+PrefixKept ==
+  (mode = "w" /\ \A i \in 1..Len(hist) : hist[i].o.op # "seek") =>
+     (Len(w.buf) >= 8 * base /\ SubSeq(w.buf, 1, 8 * base) = PrefixBits(base))
 
 TypeOK == /\ Len(w.buf) % 8 = 0 /\ Len(f) % 8 = 0
 =============================================================================
